@@ -74,9 +74,14 @@ class Server(BaseComponent):
         """
         iterator = self.__protocols[sock].send(event)
         if no_result:
+            # (an option of this send, not a property of the event: the same
+            # object may be sent again with a result wanted)
             event.node_without_result = True
-            with contextlib.suppress(StopIteration):
-                next(iterator)
+            try:
+                with contextlib.suppress(StopIteration):
+                    next(iterator)
+            finally:
+                del event.node_without_result
         return iterator
 
     def send_to(self, event, socks):
